@@ -261,13 +261,16 @@ def _quoted_in_python(ctx: Ctx):
     import pandas as pd
     from formulaic import Formula, model_matrix
     rng = ctx.fork("quoted-python")
-    names = ["a", "x", "m", "x y", "a|b", "a|b|c", "in", "for", "1st", "a b", "a  b", "é", "max", "e"]
+    # (several of these sanitize to the same Python identifier: a_b for 'a b', 'a|b', 'a-b', 'a.b'; _1st ...)
+    names = ["a", "x", "m", "x y", "a|b", "a|b|c", "in", "for", "1st", "a b", "a  b", "é", "max", "e", "a-b", "a.b", "a_b", "_1st", "x-y"]
     n = 5
     df = pd.DataFrame({nm: [float((k * (i + 2)) % 7 + 1) for k in range(n)] for i, nm in enumerate(names)})
     funcs = {"np.log": np.log, "np.exp": lambda v: np.exp(v / 8), "max0": None, "np.sqrt": np.sqrt, "abs": np.abs}
     for i in range(ctx.n(150, 2000)):
         k = rng.choice([1, 1, 2, 3])
         cols = [rng.choice(names) for _ in range(k)]
+        if k >= 2 and rng.random() < 0.5:          # names that collide after sanitisation, side by side
+            cols = rng.sample(rng.choice([["a b", "a|b", "a-b", "a.b", "a_b"], ["1st", "_1st"], ["x y", "x-y"]]), 2) + cols[2:]
         fn = rng.choice(["np.log", "np.sqrt", "np.abs", "np.maximum", "I"])
         if fn == "np.maximum":
             cols = (cols + [rng.choice(names)])[:2] if len(cols) < 2 else cols[:2]
